@@ -46,7 +46,7 @@ def bounds(tier):
     return {"cards -> sample-number orders": [(n, ps if ps == "all" else len(ps)) for n, ps in p["worlds"]], "contests": 2,
             "events": "one contest +1" + (" or any non-empty subset +1" if p["subset_events"] else ""), "modes": ["redraw", "continue"],
             "histories": "all, to exhaustion of the cards", "mvr_worlds_per_world": p["mvr_worlds"], "tests": p["tests"],
-            "second_model": "tla/Escalation.tla checked by TLC, every edge replayed (thorough tier)"}
+            "second_model": "tla/Escalation.tla (4 and 5 cards, 2 contests, rounds raising one or both contests) checked by TLC, every edge of the dumped graph replayed on the implementation (thorough tier)"}
 
 
 IDS = s4.CONTESTS[:2]
@@ -290,7 +290,7 @@ def explore(tier, seed):
     rec = core.pmap(run_shard, shards, seed, progress="C10")
     if tier == "thorough":
         from . import c10_tla
-        c10_tla.run(rec)
+        c10_tla.run(rec, (4, 5))
     return rec
 
 
